@@ -1128,6 +1128,96 @@ func dupCases(thorough bool) int {
 	return n
 }
 
+// ---- (f) hostile directory states ----
+// local/weekends exists but cannot be read (a directory, a dangling symbolic
+// link); the counter file is deleted, or replaced by an empty file, while the
+// program has it mapped, and then a counter needs an extension.  Every
+// file-system call is a scheduling point here, so a loop over failing calls
+// runs into the step budget (hang) instead of blocking the harness.
+var envKinds = []string{"weekends-dir", "weekends-dangling", "file-deleted", "file-replaced"}
+
+func envCase(kind string) {
+	if tooManyHangs() {
+		return
+	}
+	dir, err := os.MkdirTemp(root, "e")
+	if err != nil {
+		panic(err)
+	}
+	defer os.RemoveAll(dir)
+	telemetry.Default = telemetry.NewDir(dir)
+	now := time.Date(2024, 1, 3, 10, 0, 0, 0, time.UTC)
+	counter.CounterTime = func() time.Time { return now }
+	planSeq++
+	mrand.Seed(int64(Seed())*1000003 + planSeq)
+	maps = nil
+	vatomic.ResetClosed()
+	vosc.Reset(nil)
+	local := telemetry.Default.LocalDir()
+	f := counter.VerifNewFile()
+	c := f.NewCounter("a")
+	total := uint64(0)
+	switch kind {
+	case "weekends-dir":
+		os.MkdirAll(filepath.Join(local, "weekends"), 0777)
+	case "weekends-dangling":
+		os.MkdirAll(local, 0777)
+		if err := os.Symlink(filepath.Join(local, "no-such-target", "x"), filepath.Join(local, "weekends")); err != nil {
+			panic(err)
+		}
+	case "file-deleted", "file-replaced":
+		f.Rotate1()
+		c.Add(1)
+		total = 1
+		name := f.CurrentName()
+		if err := os.Remove(name); err != nil {
+			panic(err)
+		}
+		if kind == "file-replaced" {
+			os.WriteFile(name, nil, 0666)
+		}
+	}
+	vosc.Yielding = true
+	status, _ := runManaged(6000, func() {
+		f.Rotate1()
+		c.Add(3)
+		total += 3
+		for i := 0; i < 4; i++ {
+			f.NewCounter(restNames[5] + strconv.Itoa(i)).Add(1)
+		}
+		c.Add(5)
+		total += 5
+	})
+	vosc.Yielding = false
+	calls := vosc.Calls
+	vosc.Reset(nil)
+	extra, persisted := uint64(0), uint64(0)
+	parked := false
+	if status == "ok" {
+		parked, _ = f.VerifParked()
+		extra = counter.VerifExtra(c)
+		if name := f.CurrentName(); name != "" {
+			if d, err := os.ReadFile(name); err == nil && len(d) >= 64 {
+				for _, r := range linked(d, hdrLenOf(counter.VerifMeta(f))) {
+					if r.name == "a" {
+						persisted = r.val
+					}
+				}
+			}
+		}
+		f.Close()
+	}
+	out.Case(true, "env", kind, status, B(parked), U(total), U(extra), U(persisted), I(int64(calls)))
+	out.Note("env-" + kind)
+}
+
+func envCases() int {
+	for _, k := range envKinds {
+		envCase(k)
+	}
+	return len(envKinds)
+}
+
 // ---- (d) the package-level Open API ----
 // counter.Open(rotate) is once-per-process (sync.Once, package variables), so
 // each case is a child process of this binary: the telemetry directory is
@@ -1239,6 +1329,7 @@ func main() {
 	np += concFailCases(thorough)
 	np += openAPICases()
 	np += dupCases(thorough)
+	np += envCases()
 	for i := np; i < n; i++ {
 		restCase()
 	}
